@@ -42,7 +42,9 @@ LEVEL_NOTE = "trusted: System.g_N, g_N_dot, gamma_F, M (C06, C14); reconstructio
 def _case(draw):
     sc = draw(dynbuild.scene())
     return {"scene": sc, "solver": draw(st.sampled_from(dynbuild.NONSMOOTH_SOLVERS)),
-            "dt": 10.0 ** draw(gen.f(-2.7, -1.7)), "nsteps": draw(st.integers(40, 120))}
+            "dt": 10.0 ** draw(gen.f(-2.7, -1.7)), "nsteps": draw(st.integers(40, 120)),
+            # DualStormerVerlet: accelerated fixed-point iteration (default) or the plain one
+            "dsv_accelerated": draw(st.booleans())}
 
 
 def strategy(tier):
@@ -79,7 +81,8 @@ def check(spec):
         raise
     dt, n = spec["dt"], spec["nsteps"]
     try:
-        sol, wrn = dynbuild.run(solver, system, system.t0 + n * dt, dt)
+        kw = {"accelerated": bool(spec.get("dsv_accelerated", True))} if solver == "DualStormerVerlet" else {}
+        sol, wrn = dynbuild.run(solver, system, system.t0 + n * dt, dt, **kw)
     except (RuntimeError, ValueError) as e:
         if "not converged" in str(e) or "did not converge" in str(e):
             res.inconclusive += 1
@@ -184,6 +187,10 @@ def check(spec):
         res.label("force_free")
     res.nontrivial = impacts > 0 and persistent > 0
     res.label(f"solver:{solver}")
+    if solver == "DualStormerVerlet":
+        res.label("dsv:accelerated" if spec.get("dsv_accelerated", True) else "dsv:plain_fixed_point")
+    if sc.get("plane_motion"):
+        res.label("plane:moving:" + solver)
     if impacts:
         res.label("has_impact")
     if persistent:
